@@ -67,6 +67,74 @@ Proof.
     + replace (i0 + N.of_nat (S j)) with (i0 + 1 + N.of_nat j) by lia. exact (IH (i0 + 1) Hr j n f Hj).
 Qed.
 
+(* ------------------------------------------------------------------ the calls of a compiled program on the VM *)
+Lemma f9_calls_ok F bld M B :
+  in_f9 M = true ->
+  compile M default_options = COk B ->
+  N.of_nat (length (Compiler.p_ids B)) < two32 ->
+  N.of_nat (length (Compiler.p_bytecode B)) < 2147483648 ->
+  CompilerLabels.label_keys_distinct_module M 64 = true ->
+  calls_ok9 F bld (C15Link.to_vm B) (Compiler.p_ids B) (gnames9 M) (ftab_of M)
+            (sem9 (other_fns M)) (sig_of (other_fns M)) (need_fs (other_fns M)) (length (other_fns M)).
+Proof.
+  intros HM HB Hlen Hsmall Hdist.
+  destruct (compile_f9_shape_code M B HM HB Hlen) as (rest & Hbc & Hnames & Tinj & Tlt & Hinj).
+  pose proof (compile_f9_labels M B HM HB Hlen Hdist) as Hlabels.
+  destruct M as [subs funs imps]. cbn [in_f9] in HM.
+  destruct subs; [|discriminate]. destruct funs as [|[name f0] others]; [discriminate|]. destruct imps; [|discriminate].
+  apply andb_true_iff in HM. destruct HM as [HM Hfns]. apply andb_true_iff in HM. destruct HM as [HM Hcards].
+  apply andb_true_iff in HM. destruct HM as [HM Hnd]. apply andb_true_iff in HM. destruct HM as [_ Hargs].
+  set (M := Module [] ((name, f0) :: others) []) in *.
+  set (T := Compiler.p_ids B) in *. set (names := gnames9 M) in *. set (P := C15Link.to_vm B).
+  set (FT := ftab_of M) in *. set (cards := f_cards f0) in *.
+  set (cm := code_main9 T FT cards).
+  assert (Hcode : p_code P = encode (cm ++ code_fns9 T FT (bytes cm) others ++ rest)).
+  { change (p_code P) with (Compiler.p_bytecode B). rewrite Hbc. unfold code_all9. cbn [main_fn other_fns M].
+    fold FT cards cm. rewrite <- !app_assoc. reflexivity. }
+  assert (Psmall : code_len P < 2147483648) by exact Hsmall.
+  assert (Hplaced : placed9 P T names FT others).
+  { apply (placed9_intro P T names FT Psmall others 1 cm rest Hcode).
+    - exact Hlabels.
+    - intros j n f Hj. replace (1 + N.of_nat j) with (0 + N.of_nat (S j)) by lia.
+      apply (sm_find_ftab ((name, f0) :: others) 0 Hnd (S j) n f Hj).
+    - intros n f Hin x Hx.
+      assert (Hxn : In x names).
+      { unfold names, gnames9. cbn [m_functions M]. apply in_flat_map. exists (n, f). split; [right; exact Hin | exact Hx]. }
+      split; [exact Hxn | apply Hnames, Hxn]. }
+  cbn [other_fns M].
+  exact (fns_sim9 F bld P T names FT Tlt Tinj Hinj Psmall others Hfns Hplaced).
+Qed.
+
+(* at the Return instruction of a callee the caller's part of the stack (and every frame under the callee's) is intact *)
+Theorem f9_call_keeps_caller_stack F bld M B :
+  in_f9 M = true ->
+  compile M default_options = COk B ->
+  N.of_nat (length (Compiler.p_ids B)) < two32 ->
+  N.of_nat (length (Compiler.p_bytecode B)) < 2147483648 ->
+  CompilerLabels.label_keys_distinct_module M 64 = true ->
+  forall name n, sm_find name (sig_of (other_fns M)) = Some n ->
+  exists h pos,
+    sm_find name (ftab_of M) = Some (h, N.of_nat n mod two32) /\ Vm.assoc h (p_labels (C15Link.to_vm B)) = Some pos /\
+    forall vals g gv below fr rest hp v g',
+      length vals = n -> Forall simple vals -> grel (Compiler.p_ids B) (gnames9 M) g gv -> gsimple g ->
+      N.to_nat (fr_off fr) = length below -> (length below + need_fs (other_fns M) < cap)%nat ->
+      (length rest + length (other_fns M) < call_stack_size)%nat ->
+      sem9 (other_fns M) name vals g = (Some v, g') ->
+      exists k gv' fr' hp' ipr mid,
+        steps9 F bld (C15Link.to_vm B) cap k (pos, below ++ map to_vm vals, gv, fr :: rest, hp)
+               (ipr, below ++ mid ++ [to_vm v], gv', fr' :: rest, hp') /\
+        fr_off fr' = fr_off fr /\ code_at (C15Link.to_vm B) ipr IReturn /\
+        grel (Compiler.p_ids B) (gnames9 M) g' gv'.
+Proof.
+  intros HM HB Hlen Hsmall Hdist name n Hfind.
+  destruct (f9_calls_ok F bld M B HM HB Hlen Hsmall Hdist name n Hfind) as (h & pos & A & _ & C & D).
+  exists h, pos. split; [exact A|]. split; [exact C|].
+  intros vals g gv below fr rest hp v g' L1 L2 L3 L4 L5 L6 L7 E.
+  specialize (D vals g gv below fr rest hp L1 L2 L3 L4 L5 L6 L7). rewrite E in D.
+  destruct D as (k & gv' & fr' & hp' & ipr & mid & D1 & D2 & D3 & D4 & _).
+  exists k, gv', fr', hp', ipr, mid. auto.
+Qed.
+
 (* ------------------------------------------------------------------ the theorem *)
 Theorem compile_correct_f9 F bld M B fuel host o :
   in_f9 M = true ->
